@@ -194,6 +194,28 @@ theorem fetch_fixed : fetchFixed = true := by decide
 failed outcome, and failed = non-kafka there) -/
 theorem close_rules_hold : Gen.ConnLegacy.doClosesNonKafka = true ∧ Gen.ConnLegacy.batchClosesNonKafka = true := by decide
 
+/-! ### nothing else reads the Conn's buffer
+
+The theorems speak about the operations of the table, the framing code (`waitResponse`, `do`, `ApiVersions`) and the
+batch path.  `Gen.ConnLegacy.rbufUsers` is regenerated: every function of package kafka that touches a Conn's read
+buffer.  Each is one of the modelled sites, or a helper called only from modelled sites (an extracted helper does not
+raise an alarm; a new method that reads responses on its own does). -/
+
+/-- the modelled readers of the buffer: the read closures of the operation table, the framing functions, the batch path -/
+def modelledReaders : List String :=
+  ["Conn.findCoordinator", "Conn.heartbeat", "Conn.joinGroup", "Conn.leaveGroup", "Conn.listGroups", "Conn.offsetCommit",
+   "Conn.offsetFetch", "Conn.syncGroup", "Conn.createTopics", "Conn.deleteTopics", "Conn.saslHandshake",
+   "Conn.saslAuthenticate",                      -- framed (v1 handshake) and the raw token exchange (`rawToken`, C17)
+   "Conn.readOffset", "Conn.readResponse", "Conn.writeCompressedMessages",
+   "Conn.ApiVersions", "Conn.readApiVersions",
+   "Conn.waitResponse", "Conn.peekResponseSizeAndID", "Conn.skipResponseSizeAndID", "Conn.do", "Conn.abortRead",
+   "Conn.ReadBatchWith", "Batch.close"]
+
+def readerAccepted (u : String × List String) : Bool :=
+  modelledReaders.contains u.1 || (!u.2.isEmpty && u.2.all modelledReaders.contains)
+
+theorem buffer_readers_are_modelled : Gen.ConnLegacy.rbufUsers.all readerAccepted = true := by decide
+
 /-! ### a size prefix below 4 (negative ones included)
 
 conn.go waitResponse hands `size − 4` to the read closure; with a prefix below 4 (the correlation id alone takes 4
